@@ -13,6 +13,7 @@ import (
 	"os/exec"
 	"path/filepath"
 	"sort"
+	"strconv"
 	"strings"
 	"testing"
 	"time"
@@ -103,6 +104,7 @@ type history struct {
 	batches []wbatch
 	after   []*state // after[i] = model after batch i
 	desc    []string
+	large   bool // holds a batch of more than 32 points
 }
 
 func toFix(p wp) fix.P {
@@ -150,6 +152,15 @@ func genHistory(t *rapid.T) *history {
 	}
 	nodePts := func(id string) wbatch {
 		b := wbatch{Subject: "p." + id}
+		if rapid.IntRange(0, 5).Draw(t, "largeBatch") == 0 {
+			// an array-like configuration written in one batch: all of it or none of it
+			n := rapid.IntRange(33, 150).Draw(t, "nLarge")
+			for k := 0; k < n; k++ {
+				b.Points = append(b.Points, wp{Type: "arr", Key: strconv.Itoa(k), Value: float64(k), Text: "e", TimeNs: tick(), Origin: "h"})
+			}
+			h.large = true
+			return b
+		}
 		for k := rapid.IntRange(1, 5).Draw(t, "npts"); k > 0; k-- {
 			b.Points = append(b.Points, wp{Type: rapid.SampledFrom([]string{"value", "description", "a", "b"}).Draw(t, "ptype"), Key: rapid.SampledFrom([]string{"", "1", "2"}).Draw(t, "pkey"),
 				Text: rapid.StringMatching(`[a-z]{0,30}`).Draw(t, "ptext"), Value: float64(rapid.IntRange(-99, 99).Draw(t, "pvalue")), TimeNs: tick(), Origin: "h"})
@@ -538,7 +549,11 @@ func TestPropCrashAnywhere(t *testing.T) {
 			stats.Class("kill:"+k, int64(v))
 		}
 		stats.Enumerated(int64(len(kills)), 0)
-		stats.Case(inside >= 2, stats.Digest(fmt.Sprint(h.desc), fmt.Sprint(kills)), fmt.Sprintf("batches%d", len(h.batches)/10*10))
+		hcls := []string{fmt.Sprintf("batches%d", len(h.batches)/10*10)}
+		if h.large {
+			hcls = append(hcls, "batchOf>32Points")
+		}
+		stats.Case(inside >= 2, stats.Digest(fmt.Sprint(h.desc), fmt.Sprint(kills)), hcls...)
 		if thorough {
 			stats.Class("historiesWithEveryKillPointEnumerated", 1)
 		}
